@@ -182,6 +182,21 @@ func absentKind(k model.ErrKind) bool {
 	return k == model.NoSuchKey || k == model.DeleteMarkerCurrent
 }
 
+// agreeAlt is agree for requests that are invalid in more than one way: any of
+// the applicable error kinds is acceptable (error precedence is not part of
+// any property).
+func (d *Driver) agreeAlt(op string, want model.ErrKind, err error, alts ...model.ErrKind) *Violation {
+	if want != model.OK && err != nil {
+		got := classify(err)
+		for _, a := range alts {
+			if got == a {
+				return nil
+			}
+		}
+	}
+	return d.agree(op, want, err)
+}
+
 // agree compares the outcome class of an operation.
 func (d *Driver) agree(op string, want model.ErrKind, err error) *Violation {
 	got := classify(err)
@@ -849,7 +864,11 @@ func (d *Driver) opCopy(g *sim.Tape) *Violation {
 	res, err := d.St.CopyObject(d.ctx, bn(sb), ok(sk), bn(db), ok(dk), opts)
 	d.noteOp(op, err)
 	mv, _, want := d.M.CopyObject(sb, sk, db, dk, a)
-	if v := d.agree(op, want, err); v != nil {
+	var alts []model.ErrKind
+	if a.RangeStart != nil && a.RangeEnd != nil && *a.RangeStart >= *a.RangeEnd {
+		alts = append(alts, model.InvalidRange) // an empty range is unsatisfiable whatever else is wrong
+	}
+	if v := d.agreeAlt(op, want, err, alts...); v != nil {
 		return v
 	}
 	if want != model.OK || err != nil {
@@ -1226,7 +1245,11 @@ func (d *Driver) opMultipart(g *sim.Tape) *Violation {
 		_, err := d.St.UploadPartCopy(d.ctx, bn(sb), ok(sk), bn(b), ok(u.Key), rid, int32(n), opts)
 		d.noteOp(op, err)
 		_, want := d.M.UploadPartCopy(sb, sk, b, u.Key, mid, n, nil, rs, re)
-		if v := d.agree(op, want, err); v != nil {
+		var alts []model.ErrKind
+		if rs != nil && re != nil && *rs >= *re {
+			alts = append(alts, model.InvalidRange)
+		}
+		if v := d.agreeAlt(op, want, err, alts...); v != nil {
 			return v
 		}
 		if err == nil {
